@@ -19,6 +19,8 @@ following valid getProperties on it is answered; other clients are not disturbed
 """
 from __future__ import annotations
 
+from fractions import Fraction
+
 from props.common import Condition, Draw, NoProgress, Reject, make_condition, verdict, note, MODE, part_class
 from props.driverlib import rich_driver_classes, vector_kind
 from props import vloop
@@ -64,16 +66,14 @@ def valid_value(kind, fmt, value, size=None):
     if kind == "Switch":
         return value in ("On", "Off"), value
     if kind == "Number":
-        import re
+        # INDI: any number form is valid for any number property, whatever its format
+        from props.c10 import indi_denote
         if value is None:
             return False, None
-        if re.fullmatch(r"%\d*\.\d+m", fmt):
-            return False, None          # sexagesimal targets: only "unchanged or applied" is asserted
-        if re.fullmatch(r"-?\d+", value):
-            return True, int(value)
-        if re.fullmatch(r"-?\d*\.\d+|-?\d+\.", value):
-            return True, float(value)
-        return False, None
+        den = indi_denote(value)
+        if den is None:
+            return False, None
+        return True, ("number", den)
     if kind == "BLOB":
         import base64
         import binascii
@@ -188,13 +188,14 @@ def direct(kind, nchildren):
                 key = (target.name, prop, c.name)
                 if ok:
                     allowed.setdefault(key, []).append(val)
-                elif kind == "Number" and fmt.endswith("m"):
-                    allowed.setdefault(key, []).append("?")
         for key in before:
             if before[key] == after[key]:
                 continue
             if key in allowed:
-                if "?" in allowed[key] or after[key] in allowed[key]:
+                if after[key] in allowed[key]:
+                    continue
+                if kind == "Number" and any(isinstance(a, tuple) and a[0] == "number" and abs(Fraction(after[key]) - a[1]) < Fraction(1, 10 ** 9)
+                                            for a in allowed[key]):
                     continue
                 if kind == "Switch" and after[key] in ("On", "Off"):
                     continue      # the switch rule may override a write (C09 governs that)
@@ -208,7 +209,9 @@ def direct(kind, nchildren):
         # fully valid single-child messages must be applied
         if nchildren == 1 and len(allowed) == 1:
             key = list(allowed)[0]
-            if "?" not in allowed[key] and after[key] != allowed[key][0] and key[1] != "SW":
+            a0 = allowed[key][0]
+            applied = (abs(Fraction(after[key]) - a0[1]) < Fraction(1, 10 ** 9)) if (isinstance(a0, tuple) and a0[0] == "number") else after[key] == a0
+            if not applied and key[1] != "SW":
                 return verdict(False, "a valid write was not applied")
         # ---- still serving: a valid request afterwards is answered
         got_a.clear()
@@ -233,7 +236,8 @@ def catalogue():
         ("unknown-element", T(device="DEV", name="TXT", children=(op.OneText(name="ZZ", value="x"),))),
         ("kind-mismatch", T(device="DEV", name="SW", children=(op.OneText(name="S1", value="x"),))),
         ("kind-mismatch-number", N(device="DEV", name="TXT", children=(op.OneNumber(name="A", value="1"),))),
-        ("bad-number", N(device="DEV", name="NUM", children=(op.OneNumber(name="M", value="1:30"),))),
+        # (a number text that passes the message validator is a valid INDI number for
+        # every format since the parser fix: there is no "unparsable number" entry)
         ("bad-base64", B(device="DEV", name="BLOB", children=(op.OneBLOB(name="X", size="3", format=".bin", value="!!!"),))),
         ("wrong-size", B(device="DEV", name="BLOB", children=(op.OneBLOB(name="X", size="99", format=".bin", value="AAEC"),))),
         ("non-numeric-size", B(device="DEV", name="BLOB", children=(op.OneBLOB(name="X", size="big", format=".bin", value="AAEC"),))),
